@@ -163,6 +163,11 @@ Ok(())
 
 // The repo's `impl Body for ..` blocks, restated over the verified inherent methods (R3): Verus checks them against the Body
 // contract above, i.e. "Empty / Text / Bytes obey the Body contract" is a discharged obligation, not an assumption.
+//@@ implshape src/request/body.rs impl~Body~for~Empty kind,write
+//@@ implshape src/request/body.rs impl<W:~Write>~Write~for~ChunkedWriter<W> write,flush
+//@@ implshape src/request/body.rs impl<B:~AsRef<str>>~Body~for~Text<B> kind,write
+//@@ implshape src/request/body.rs impl<B:~AsRef<[u8]>>~Body~for~Bytes<B> kind,write
+//@@ implshape src/request/body.rs impl~Body~for~File kind,write
 impl Body for Empty {
     open spec fn octets(&self) -> Seq<u8> { Seq::empty() }
     open spec fn kind_spec(&self) -> BodyKind { BodyKind::Empty }
